@@ -2,6 +2,7 @@ package followreader
 
 import (
 	"errors"
+	"github.com/fsnotify/fsnotify"
 	"io"
 	"io/fs"
 	"os"
@@ -11,7 +12,7 @@ import (
 	zz "rare/pkg/zzverif"
 )
 
-var zzHarnesses = map[string]func(){"H15Poll": H15Poll}
+var zzHarnesses = map[string]func(){"H15Poll": H15Poll, "H15Notify": H15Notify}
 
 // ---- ghost file system (gosym: os.Open / Stat / (*os.File).Read,Seek,Close / time.Sleep are
 // redirected here; natively the same actions are performed on a scratch directory) ----
@@ -232,5 +233,99 @@ func H15Poll() {
 	r.Close()
 	n, err := r.Read(buf)
 	zz.Assert(n == 0 && err == io.EOF, "a closed reader does not report EOF")
+	zz.Reached()
+}
+
+// (*fsnotify.Watcher).Close under gosym: the reader is built without a watcher
+func zzWatcherClose(w *fsnotify.Watcher) error { return nil }
+
+// ---- notify reader ----
+// Under gosym the reader is built directly (no inotify) and the harness plays
+// the watcher goroutine: after each file action it raises the signal the real
+// watcher raises for it, through the real writeSignalNonBlock (one-slot,
+// coalescing). Natively the real watcher runs on the scratch directory.
+
+func zzSignal(r *NotifyFollowReader, what string) {
+	if !zz.Symbolic() {
+		time.Sleep(60 * time.Millisecond) // let the kernel event reach the watcher goroutine
+		return
+	}
+	switch what {
+	case "write", "create":
+		writeSignalNonBlock(r.eventWrite)
+	case "remove":
+		writeSignalNonBlock(r.eventDelete)
+	}
+}
+
+// H15Notify: the notify follow reader against a file that grows, is removed
+// after being drained and is re-created: appended bytes are delivered once
+// and in order; after removal plain follow ends the stream - also when the
+// path is re-created before the reader gets to the removal - while re-open
+// follow continues with the new file from its first byte.
+func H15Notify() {
+	initial := zz.Bytes(zz.Len(zzInit))
+	zzSetup(initial)
+	defer zzDone()
+	reopen, tail := zz.Bool(), zz.Bool()
+	var r *NotifyFollowReader
+	if zz.Symbolic() {
+		zz.Concurrent(1, 0, 0) // a reader that waits for a signal nobody will raise is a deadlock, not an engine limit
+		f, err := os.Open(zzPath)
+		zz.Assert(err == nil, "cannot open the followed file")
+		r = &NotifyFollowReader{filename: zzPath, f: f, ReOpen: reopen, eventWrite: make(chan struct{}, 1), eventDelete: make(chan struct{}, 1)}
+	} else {
+		var err error
+		r, err = NewNotify(zzPath, reopen)
+		zz.Assert(err == nil && r != nil, "cannot follow an existing file")
+	}
+	var expect []byte
+	if tail {
+		zz.Assert(r.Drain() == nil, "drain failed")
+	} else {
+		expect = append(expect, initial...)
+	}
+	buf := make([]byte, zzBuf)
+	deliver := func(what string) {
+		for len(expect) > 0 {
+			n, err := r.Read(buf)
+			zz.Assert(err == nil && n > 0, "read failed or returned nothing although appended bytes are pending ("+what+")")
+			zz.Assert(n <= len(expect), "more bytes delivered than were appended ("+what+")")
+			for i := 0; i < n; i++ {
+				zz.Assert(buf[i] == expect[i], "delivered bytes are not the appended bytes in order ("+what+")")
+			}
+			expect = expect[n:]
+		}
+	}
+	steps := 1 + zz.Choice(zzSteps)
+	removed := false
+	for s := 0; s < steps && !removed; s++ {
+		if zz.Choice(2) == 0 {
+			b := zz.Bytes(1 + zz.Choice(2))
+			zzAppend(b)
+			zzSignal(r, "write")
+			expect = append(expect, b...)
+			deliver("append")
+			continue
+		}
+		deliver("before removal")
+		zzRemove()
+		zzSignal(r, "remove")
+		removed = true
+		recreated := zz.Bool()
+		var nb []byte
+		if recreated {
+			nb = zz.Bytes(1 + zz.Choice(2))
+			zzCreate(nb)
+			zzSignal(r, "create")
+		}
+		if !reopen {
+			n, err := r.Read(buf)
+			zz.Assert(n == 0 && err == io.EOF, "plain follow does not end the stream after the file was removed")
+		} else if recreated {
+			expect = append(expect, nb...)
+			deliver("after re-creation")
+		}
+	}
 	zz.Reached()
 }
